@@ -11,16 +11,16 @@ def task(kind, ops, tx=(), rx=(), otx=(), orx=(), wtx=(), wrx=()):
             "wtx": list(wtx), "wrx": list(wrx)}
 
 
-def tprog(pid, fam, tasks, chans=(), nos=0, nnt=0, sems=(), nmx=0, nwt=0, nrwl=0):
+def tprog(pid, fam, tasks, chans=(), nos=0, nnt=0, sems=(), nmx=0, nwt=0, nrwl=0, noc=0):
     for t in tasks:
         t.setdefault("wtx", [])
         t.setdefault("wrx", [])
     return {"id": pid, "fam": fam, "lang": "tokio", "chans": list(chans), "nos": nos, "nnt": nnt, "sems": list(sems),
-            "nmx": nmx, "nwt": nwt, "nrwl": nrwl, "tasks": tasks}
+            "nmx": nmx, "nwt": nwt, "nrwl": nrwl, "noc": noc, "tasks": tasks}
 
 
 def fmt_prog(p):
-    hdr = {k: p[k] for k in ("chans", "nos", "nnt", "sems", "nmx", "nwt", "nrwl", "nrw", "nmap") if p.get(k)}
+    hdr = {k: p[k] for k in ("chans", "nos", "nnt", "sems", "nmx", "nwt", "nrwl", "noc", "nrw", "nmap") if p.get(k)}
     lines = [f"prog {p['id']} [{p['fam']}] objs={hdr}"]
     for i, t in enumerate(p["tasks"]):
         own = {k: t[k] for k in ("tx", "rx", "otx", "orx", "wtx", "wrx") if t.get(k)}
@@ -377,7 +377,42 @@ def gen_cancel(count, seed, first_id=9950):
     return out
 
 
+def gen_oncecell(count, seed, first_id=10300):
+    """OnceCell: racing get_or_init / get_or_try_init (initialisers with scheduling points inside, some failing), set, get,
+    and the abort of a future task that may be initialising or waiting for another task's initialiser."""
+    rng = random.Random(f"tk_oncecell:{seed}")
+    out = []
+    for i in range(count):
+        n = rng.randint(2, 4)
+        with_abort = n >= 3 and rng.random() < 0.4
+        kinds = ["thread"] + [("future" if with_abort else rng.choice(["thread", "future"])) for _ in range(n - 1)]
+        victim = rng.randint(1, n - 1) if with_abort else -1
+        tasks = []
+        for t in range(n):
+            ops = []
+            if t == 0 and with_abort:
+                if rng.random() < 0.5:
+                    ops.append(op("yield"))
+                ops.append(op("abort", 0, victim))
+            for _ in range(rng.randint(1, 3)):
+                k = rng.choice(["oc_init", "oc_init", "oc_try", "oc_set", "oc_get", "oc_initd", "yield"])
+                val = 10 * (t + 1) + len(ops)       # every write attempt carries a value of its own
+                if k in ("oc_init", "oc_try"):
+                    o = op(k, 0, -1 if (k == "oc_try" and rng.random() < 0.5) else val)
+                    o["w"] = rng.randint(0, 2)
+                    ops.append(o)
+                elif k == "oc_set":
+                    ops.append(op(k, 0, val))
+                else:
+                    ops.append(op(k, 0))
+            tasks.append(task(kinds[t], ops))
+        out.append(tprog(first_id + i, "tk_oncecell", tasks, noc=1))
+    return out
+
+
 def family(fam, count, seed):
+    if fam == "tk_oncecell":
+        return gen_oncecell(count, seed)
     if fam == "tk_cancel":
         return gen_cancel(count, seed)
     if fam == "tk_watch":
